@@ -1,6 +1,8 @@
 package main
 
 import (
+	"encoding/hex"
+	"crypto/sha256"
 	"encoding/json"
 	"flag"
 	"fmt"
@@ -59,7 +61,16 @@ func main() {
 	dumpA := flag.String("dump-anchors", "", "developer: merge the type/field anchors queried in this run into this shape table")
 	cgKind := flag.String("cg", "vta", "call graph kind: vta|cha")
 	listMut := flag.Bool("list-mutants", false, "list registered mutants")
+	writeRef := flag.Bool("write-reference", false, "developer: record the fingerprint of -repo's non-test Go sources as the reference tree")
 	flag.Parse()
+	if *writeRef {
+		abs, _ := filepath.Abs(*repo)
+		fp, n := treeFingerprint(abs)
+		b, _ := json.MarshalIndent(map[string]any{"fingerprint": fp, "files": n, "note": "sha256 over the sorted (path, content) pairs of all non-test .go files of the repository the self-tests (mutants) and instance counts were validated on"}, "", " ")
+		os.WriteFile(filepath.Join(*verif, "reference_tree.json"), b, 0o644)
+		fmt.Println("reference tree recorded:", fp, n, "files")
+		return
+	}
 	_ = cgKind
 	os.Setenv("PATH", goPath()) // the `go` driver is looked up in this process's PATH
 	os.Unsetenv("GOWORK")
@@ -130,6 +141,8 @@ func main() {
 	buildCanonNames(c)
 	r := newReport(*prop, *tier, seed, c)
 	r.quiet = *quiet
+	r.ReferenceTree = isReferenceTree(absRepo, *verif)
+	r.Extra["tree_is_reference"] = r.ReferenceTree
 	c.R = r
 	kf, err := loadKnown(filepath.Join(*verif, "known_findings.json"))
 	if err != nil {
@@ -337,6 +350,7 @@ func runAll(tier, repo, verif string, quiet bool) int {
 		fmt.Printf("=== %s\n", id)
 		r := newReport(id, tier, 0, c)
 		r.quiet = quiet
+		r.ReferenceTree = isReferenceTree(absRepo, verif)
 		r.Known = kf
 		c.R = r
 		func() {
@@ -353,4 +367,67 @@ func runAll(tier, repo, verif string, quiet bool) int {
 		}
 	}
 	return rc
+}
+
+var refMemo = map[string]bool{}
+
+// treeFingerprint: sha256 over the sorted (relative path, content) pairs of the repository's non-test Go files.
+func treeFingerprint(repo string) (string, int) {
+	var files []string
+	filepath.WalkDir(repo, func(p string, d os.DirEntry, err error) error {
+		if err != nil {
+			return nil
+		}
+		if d.IsDir() {
+			if n := d.Name(); n == ".git" || n == "vendor" || n == "node_modules" || n == "testdata" {
+				return filepath.SkipDir
+			}
+			return nil
+		}
+		if strings.HasSuffix(p, ".go") && !strings.HasSuffix(p, "_test.go") {
+			files = append(files, p)
+		}
+		return nil
+	})
+	sort.Strings(files)
+	h := sha256.New()
+	for _, f := range files {
+		rel, _ := filepath.Rel(repo, f)
+		b, err := os.ReadFile(f)
+		if err != nil {
+			continue
+		}
+		fmt.Fprintf(h, "%s\x00%d\x00", rel, len(b))
+		h.Write(b)
+	}
+	return hex.EncodeToString(h.Sum(nil)), len(files)
+}
+
+// isReferenceTree: does the analysed tree equal the recorded reference? Without a record every tree counts as the
+// reference (self-test failures stay fatal).
+func isReferenceTree(repo, verif string) bool {
+	if v, ok := refMemo[repo]; ok {
+		return v
+	}
+	path := filepath.Join(verif, "reference_tree.json")
+	b, err := os.ReadFile(path)
+	if err != nil {
+		if exe, err2 := os.Executable(); err2 == nil {
+			b, err = os.ReadFile(filepath.Join(filepath.Dir(filepath.Dir(exe)), "reference_tree.json"))
+		}
+	}
+	if err != nil {
+		refMemo[repo] = true
+		return true
+	}
+	var rec struct {
+		Fingerprint string `json:"fingerprint"`
+	}
+	if json.Unmarshal(b, &rec) != nil || rec.Fingerprint == "" {
+		refMemo[repo] = true
+		return true
+	}
+	fp, _ := treeFingerprint(repo)
+	refMemo[repo] = fp == rec.Fingerprint
+	return refMemo[repo]
 }
